@@ -1249,9 +1249,151 @@ def rule_digits(repo: Repo, rid: str = "C13.digits", modules=(NS,), pname: str =
     return r
 
 
+_SPEC_FIELD = re.compile(r"\{[^{}]*:[^{}]*(?:\.|\{)[^{}]*(?:\{[^{}]*\}[^{}]*)*\}")
+_PERCENT_PREC = re.compile(r"%[-+ #0]*\d*\.(?:\d+|\*)[feEgG]")
+
+
+def _precision_limited(e: ast.AST) -> List[ast.AST]:
+    """operands whose text is cut to a number of decimals by this expression: round(x, d), format(x, '.3f'), '{:.3f}'.format(x),
+    f'{x:.3f}', '%.3f' % x"""
+    if isinstance(e, ast.Call):
+        nm = callee_name(e)
+        if nm == "round" and e.args and isinstance(e.func, (ast.Name, ast.Attribute)):
+            return [e.args[0]]
+        if nm == "format" and isinstance(e.func, ast.Name) and len(e.args) == 2:
+            return [e.args[0]]
+        if nm == "format" and isinstance(e.func, ast.Attribute) and isinstance(e.func.value, ast.Constant) and isinstance(e.func.value.value, str) \
+                and _SPEC_FIELD.search(e.func.value.value):
+            return list(e.args) + [k.value for k in e.keywords]
+        if nm in ("quantize", "around", "round_") and e.args:
+            return [e.args[0]] + ([e.func.value] if isinstance(e.func, ast.Attribute) else [])
+    if isinstance(e, ast.FormattedValue) and e.format_spec is not None:
+        return [e.value]
+    if isinstance(e, ast.BinOp) and isinstance(e.op, ast.Mod) and isinstance(e.left, ast.Constant) and isinstance(e.left.value, str) \
+            and _PERCENT_PREC.search(e.left.value):
+        return list(e.right.elts) if isinstance(e.right, ast.Tuple) else [e.right]
+    return []
+
+
+def rule_fullprecision(repo: Repo, rid: str = "C13.fullprecision") -> RuleResult:
+    """the infix text handed to sympy carries every constant of the expression as it is: rounding belongs to the PRINTING of the
+    simplified result (at the requested number of decimals), not to its input -- a coefficient cut to a fixed number of decimals before
+    simplification changes the condition (2.99999 becomes 3, 0.00002 drops its whole monomial)"""
+    r = RuleResult(rid, "to_mathematical writes the constants of the expression unrounded (no round / precision format on a node value)",
+                   "equivalent up to rounding of coefficients at the REQUESTED number of decimals")
+    f = _fn(repo, "NumericalExpressionTree.to_mathematical")
+    p = L.prov(repo, f)
+    r.site(f.qn + " [constants]")
+    bad = None
+    for e in ast.walk(f.node):
+        for x in _precision_limited(e):
+            try:
+                tr = p.trace(x)
+            except KeyError:
+                continue
+            if any("attr:value" in t and t[0].startswith(("self", "param:")) for t in tr) and L.flows_to_return(f, e):
+                bad = e
+    if bad is not None:
+        r.fail(Finding(rid, f, "constant-rounded", f"{unparse(bad, 70)} cuts a constant of the expression to a fixed number of decimals before the expression is "
+                       f"simplified: the simplified condition is no longer equivalent at the requested precision", node=bad))
+    else:
+        r.ok({"constants": "written as they are"})
+    return r
+
+
+def rule_opmatch(repo: Repo, rid: str = "C13.opmatch") -> RuleResult:
+    """the operator that joins the parts of a sympy node is the operator OF THAT NODE: wherever the printer is entered (or re-entered) with
+    an expression and an operator, the operator is SYMPY_OP_TO_PDDL_OP[<that expression>.func] -- never the operator of the enclosing node
+    (a sum under a reciprocal would be joined with the reciprocal's '^')"""
+    r = RuleResult(rid, "every (expression, operator) pair handed to the recursive printer is (X, SYMPY_OP_TO_PDDL_OP[X.func])",
+                   "text that uses only binary + - * / and denotes the simplified expression")
+    m = repo.module(NS)
+    funcs = [f for f in repo.all_funcs() if f.mod is m]
+    # the printers: functions of the module with a parameter that is written as the head of a parenthesised text "({operator} ..."
+    head_params: Dict[str, Tuple[FuncInfo, str, int]] = {}
+    for f in funcs:
+        for n in ast.walk(f.node):
+            if isinstance(n, ast.JoinedStr):
+                for a, b in zip(n.values, n.values[1:]):
+                    if isinstance(a, ast.Constant) and isinstance(a.value, str) and a.value.endswith("(") and isinstance(b, ast.FormattedValue) \
+                            and isinstance(b.value, ast.Name) and b.value.id in f.params:
+                        head_params[f.qn] = (f, b.value.id, f.params.index(b.value.id))
+            cand = None
+            tmpl = None
+            if isinstance(n, ast.Call) and isinstance(n.func, ast.Attribute) and n.func.attr == "format":
+                okf, tv = repo.fold(n.func.value, f.mod.name)
+                tmpl = tv if okf and isinstance(tv, str) else None
+            if tmpl is not None and re.match(r"\s*\(\{\w*\}", tmpl):
+                fld = re.match(r"\s*\(\{(\w*)\}", tmpl).group(1)
+                cand = n.args[0] if (fld == "" or fld == "0") and n.args else next((k.value for k in n.keywords if k.arg == fld), None)
+            elif isinstance(n, ast.BinOp) and isinstance(n.op, ast.Mod) and isinstance(n.left, ast.Constant) and isinstance(n.left.value, str) \
+                    and re.match(r"\s*\(%s", n.left.value):
+                cand = n.right.elts[0] if isinstance(n.right, ast.Tuple) and n.right.elts else n.right
+            elif isinstance(n, ast.BinOp) and isinstance(n.op, ast.Add) and isinstance(n.left, ast.Constant) and n.left.value == "(":
+                cand = n.right
+            if isinstance(cand, ast.Name) and cand.id in f.params:
+                head_params[f.qn] = (f, cand.id, f.params.index(cand.id))
+    if not head_params:
+        raise AnalysisError("no printer with an operator parameter written as the head of '(op a b)' found in numeric_symbolic_operations")
+    # a parameter handed on to a head parameter is a head parameter of the caller (helpers that only nest the parts)
+    for _ in range(4):
+        grew = False
+        for f in funcs:
+            if f.qn in head_params:
+                continue
+            for c in L.calls_in(f.node):
+                _cat, tg = repo.resolve_call(f, c)
+                for _k, t, _c in tg:
+                    if t is None or t.qn not in head_params:
+                        continue
+                    a_ = L.arg_of(c, head_params[t.qn][0], head_params[t.qn][1])
+                    if isinstance(a_, ast.Name) and a_.id in f.params and f.qn not in head_params:
+                        head_params[f.qn] = (f, a_.id, f.params.index(a_.id))
+                        grew = True
+        if not grew:
+            break
+
+    def expr_param(tf: FuncInfo) -> Optional[str]:
+        """the parameter that is the sympy node: .args / .func / .is_Atom / .base / .exp are read from it"""
+        for n in ast.walk(tf.node):
+            if isinstance(n, ast.Attribute) and n.attr in ("args", "func", "is_Atom", "base", "exp") and isinstance(n.value, ast.Name) and n.value.id in tf.params:
+                return n.value.id
+        return None
+
+    n_sites = 0
+    for f in funcs:
+        p = L.prov(repo, f)
+        for c in L.calls_in(f.node):
+            _cat, tg = repo.resolve_call(f, c)
+            for _k, t, _c in tg:
+                if t is None or t.qn not in head_params:
+                    continue
+                tf, pname, _i = head_params[t.qn]
+                ep = expr_param(tf)
+                op = L.arg_of(c, tf, pname)
+                ex = L.arg_of(c, tf, ep) if ep is not None and ep != pname else None
+                if op is None or ex is None:
+                    continue
+                n_sites += 1
+                r.site(L.site(f, c, "printer call"))
+                tr = p.trace(op, keys=True)
+                ex_paths = {x for x in p.trace(ex)}
+                table = any(x[0] == "global:SYMPY_OP_TO_PDDL_OP" for x in tr)
+                keys = {x[:x.index("attr:func")] for x in tr if "askey" in x and "attr:func" in x and x[-1] == "askey" and x[-2] == "attr:func"}
+                if table and keys and (keys & ex_paths):
+                    r.ok({"call": unparse(c, 70), "operator": "SYMPY_OP_TO_PDDL_OP[<expression>.func]"})
+                else:
+                    what = "the operator parameter of the enclosing call" if any(x[0].startswith("param:") and len(x) == 1 for x in tr) else f"{sorted(tr)[:2]}"
+                    r.fail(Finding(rid, f, "operator-of-other-node", f"{unparse(c, 70)}: the operator handed over for {unparse(ex, 30)} is {what}, not "
+                                   f"SYMPY_OP_TO_PDDL_OP[{unparse(ex, 30)}.func]: the parts of that node are joined with another node's operator", node=c))
+    if n_sites < 2:
+        raise AnalysisError(f"calls of the recursive printer with an (expression, operator) pair: {n_sites} found, at least 2 expected")
+    return r
+
+
 def rules(repo: Repo, tier: str) -> List[RuleResult]:
     env = c12.rule_env(repo)
     env.rule = "C13.env"
     for fd in env.findings:
         fd.rule = "C13.env"
-    return [rule_vocab(repo), rule_mangle(repo), rule_round(repo), rule_atoms(repo), rule_sides(repo), rule_eliminate(repo), rule_digits(repo), env]
+    return [rule_vocab(repo), rule_mangle(repo), rule_round(repo), rule_atoms(repo), rule_sides(repo), rule_eliminate(repo), rule_digits(repo), env, rule_fullprecision(repo), rule_opmatch(repo)]
